@@ -287,6 +287,8 @@ func c13DirWorker(c *mc.Ctx, depth int) {
 			}
 		}
 		wg.Wait()
+		// goroutines finish in any order: keep the search itself reproducible
+		sort.Slice(next, func(i, j int) bool { return fmt.Sprint(next[i].path) < fmt.Sprint(next[j].path) })
 		frontier = next
 	}
 	c.Stats.States += int64(len(seen))
@@ -476,6 +478,65 @@ func c13Worker(c *mc.Ctx) {
 	wg.Wait()
 }
 
+// c13ReplayHistory executes one recorded history on a fresh directory with the
+// real binary and applies the oracle of the search to every run in it.
+func c13ReplayHistory(history []c13Event) *mc.Violation {
+	tmpRoot, err := os.MkdirTemp(pipe.ScratchRoot(), "loxmc.c13.")
+	if err != nil {
+		return &mc.Violation{Property: "C13", Kind: "bad-replay", Detail: err.Error()}
+	}
+	defer os.RemoveAll(tmpRoot)
+	r := &c13Runner{bin: filepath.Join(tmpRoot, "lox"), root: tmpRoot}
+	if out, err := run(root.Repo(), "go", "build", "-o", r.bin, "./cmd/lox"); err != nil {
+		return &mc.Violation{Property: "C13", Kind: "bad-replay", Detail: fmt.Sprint(err, out)}
+	}
+	cfgs := c13Configs()
+	src := func(i int) dirState { return dirState{"g.lox": cfgs[i].lox, "user.go": cfgs[i].user} }
+	for i := range cfgs {
+		out, _, se, exit := r.runLox(src(i), ".", false)
+		if exit != 0 {
+			return &mc.Violation{Property: "C13", Kind: "bad-replay", Detail: "fresh run failed: " + firstLine(se)}
+		}
+		r.fresh = append(r.fresh, out)
+	}
+	d := dirState{}
+	var ps []string
+	for _, ev := range history {
+		if ev.Cfg < 0 || ev.Cfg >= len(cfgs) {
+			return nil
+		}
+		ps = append(ps, ev.String())
+		switch ev.Kind {
+		case "delete":
+			delete(d, ev.File)
+		case "swap":
+			d[ev.File] = r.fresh[ev.Cfg][ev.File]
+		case "run":
+			for k, v := range src(ev.Cfg) {
+				d[k] = v
+			}
+			out, _, se, exit := r.runLox(d, ev.Mode, false)
+			bad := ""
+			if exit != 0 {
+				bad = "lox failed over a directory holding generated files of an earlier run: " + c13RunRe.ReplaceAllString(strings.ReplaceAll(firstLine(se), r.root, "<tmp>"), "runN")
+			} else {
+				for _, f := range c13Gen {
+					if out[f] != r.fresh[ev.Cfg][f] {
+						bad = f + " differs from what a fresh directory gets: " + pipe.FirstDiff(out[f], r.fresh[ev.Cfg][f])
+						break
+					}
+				}
+			}
+			if bad != "" {
+				return &mc.Violation{Property: "C13", Check: "C13", Kind: "history-dependence", Size: len(ps), Case: mustJSON(map[string]any{"history": history}),
+					Detail: "history " + strings.Join(ps, " ; ") + ": " + bad}
+			}
+			d = out
+		}
+	}
+	return nil
+}
+
 func c13Replay(raw json.RawMessage) *mc.Violation {
 	var probe struct {
 		Schedule map[string]any `json:"schedule"`
@@ -513,7 +574,10 @@ func c13Replay(raw json.RawMessage) *mc.Violation {
 		}
 		return nil
 	}
-	// directory histories: re-run the whole (small) BFS and look for the same history
+	// directory histories: execute the recorded history, event by event
+	if len(probe.History) > 0 {
+		return c13ReplayHistory(probe.History)
+	}
 	ctx := &mc.Ctx{NShards: 1}
 	c13DirWorker(ctx, maxInt(len(probe.History), 1))
 	for _, v := range ctx.Stats.Violations {
